@@ -171,6 +171,18 @@ func (p *Program) genOnce(fn *ssa.Function, key string, opts GenOpts, pre map[st
 			pkgs[u] = true
 		}
 	}
+	if fc != nil {
+		// `opaque pkg.f g`: hide the definitions of these spec functions in this unit (sound: only forgets facts)
+		for _, o := range strings.Fields(fc.Opts["opaque"]) {
+			if vc.opaque == nil {
+				vc.opaque = map[string]bool{}
+			}
+			if !strings.Contains(o, ".") {
+				o = pkgOfKey(key) + "." + o
+			}
+			vc.opaque[o] = true
+		}
+	}
 	p.prelude(vc, pkgs)
 	vc.axiom("(>= " + vc.top(st) + " 0)")
 	fr = &Frame{vc: vc, fn: fn, fc: fc, regs: map[ssa.Value]Val{}, oblFn: key, closures: map[string]*closureRec{}, pathCond: "true"}
@@ -191,12 +203,22 @@ func (p *Program) genOnce(fn *ssa.Function, key string, opts GenOpts, pre map[st
 		}
 		args = append(args, v)
 	}
+	fr.bindParams(args)
 	for _, fv := range fn.FreeVars {
 		v := vc.freshVal(fv.Name(), fv.Type())
 		fr.wfFact(st, v, "true")
 		fr.regs[fv] = v
+		// a closure verified as a unit of its own: a captured variable is a non-nil cell; its name denotes, in the
+		// contract, the value the cell holds when the closure is entered
+		if pt, ok := fv.Type().Underlying().(*types.Pointer); ok && !isAggregate(pt.Elem()) {
+			vc.axiom("(not (= " + v.C[0] + " 0))")
+			ev := vc.readKey(st, cellKey(pt.Elem()), pt.Elem(), v.C[0])
+			fr.loadedFacts(st, ev)
+			if _, clash := fr.params[fv.Name()]; !clash {
+				fr.params[fv.Name()] = ev
+			}
+		}
 	}
-	fr.bindParams(args)
 	if fn.Signature.Recv() != nil && len(args) > 0 {
 		if _, ok := args[0].T.Underlying().(*types.Pointer); ok {
 			vc.axiom("(not (= " + args[0].C[0] + " 0))")
@@ -242,6 +264,14 @@ func (p *Program) genOnce(fn *ssa.Function, key string, opts GenOpts, pre map[st
 		// entry: an exported method is called from outside the collection code: this goroutine holds none of the collection locks
 		vc.axiom("(= " + vc.hget(st, "held", "(Array Int Bool)") + " ((as const (Array Int Bool)) false))")
 	}
+	if fc != nil && fc.NoPanicIf != nil && !opts.LockOnly {
+		t, e := env.EvalBool(fc.NoPanicIf.E)
+		if e != nil {
+			fr.specError(fc.NoPanicIf, e)
+		} else {
+			fr.nopanicGuard = vc.define("nopanic_if", "Bool", t)
+		}
+	}
 	fr.old = st.Clone()
 	entry := st.Clone()
 	res := fr.exec(st)
@@ -255,6 +285,13 @@ func (p *Program) genOnce(fn *ssa.Function, key string, opts GenOpts, pre map[st
 		}
 		bindResults(pvars, rnames, res.results)
 		penv := &Env{vc: vc, st: res.st, old: entry, vars: pvars, pkg: pkg}
+		// ghost updates (`set target := value`): the contract says how the function advances ghost state; executed on
+		// the state at normal return, in order, before the postconditions are checked
+		for _, gu := range fc.Ghost {
+			if err := fr.ghostAssign(res.st, penv, gu); err != nil {
+				p.specErrors = append(p.specErrors, fmt.Sprintf("%s:%d: ghost update %s: %v", fc.File, fc.Line, gu.Target.String(), err))
+			}
+		}
 		for _, c := range clausesFor(fc.Ensures, "") {
 			for _, part := range splitConj(c.E) {
 				t, e := penv.EvalBool(part)
@@ -324,4 +361,43 @@ func splitConj(e Expr) []Expr {
 		return out
 	}
 	return []Expr{e}
+}
+
+// ghostAssign executes one ghost update on st: the target is a ghost field of an object (x.g) or a ghost global.
+func (fr *Frame) ghostAssign(st *State, env *Env, gu *GhostUpd) (err error) {
+	vc := fr.vc
+	defer func() {
+		if r := recover(); r != nil {
+			if ee, ok := r.(evalErr); ok {
+				err = fmt.Errorf("%s", ee.msg)
+				return
+			}
+			panic(r)
+		}
+	}()
+	switch x := gu.Target.(type) {
+	case *ESel:
+		base := env.eval(x.X, nil)
+		ref, S, ok := derefStruct(base)
+		if !ok {
+			return fmt.Errorf("target is not a field of a struct object")
+		}
+		g := vc.prog.ghostField(structKey(S), x.Name)
+		if g == nil {
+			return fmt.Errorf("%s is not a ghost field (only ghost state can be assigned)", x.Name)
+		}
+		t := env.resolveType(g.Type)
+		v := env.coerce(env.eval(gu.Value, t), t)
+		vc.writeKey(st, fieldKey(S, x.Name), t, ref, v)
+		return nil
+	case *EIdent:
+		if g := vc.prog.ghostGlobal(x.Name, env.pkg); g != nil {
+			t := env.resolveType(g.Type)
+			v := env.coerce(env.eval(gu.Value, t), t)
+			vc.writeGlobal(st, "G:ghost."+g.Pkg+"."+x.Name, t, v)
+			return nil
+		}
+		return fmt.Errorf("%s is not a ghost global", x.Name)
+	}
+	return fmt.Errorf("unsupported ghost target")
 }
